@@ -457,6 +457,10 @@ export class SchemaPrintingContext {
     this.inProgressDefinitions[name] = true;
   }
 
+  clearDefinitionInProgress(name: string): void {
+    delete this.inProgressDefinitions[name];
+  }
+
   storeDefinition(name: string, schema: JSONSchema7Definition): void {
     this.collectedDefinitions[name] = schema;
     delete this.inProgressDefinitions[name];
@@ -1858,8 +1862,13 @@ export class AnyOfDiscriminatedRuntype extends BaseRuntype {
       return;
     }
     printingContext.markDefinitionInProgress(name);
-    const body = target.schema(ctx);
-    printingContext.storeDefinition(name, body);
+    try {
+      const body = target.schema(ctx);
+      printingContext.storeDefinition(name, body);
+    } finally {
+      // a body that cannot be printed throws: the name must not stay marked
+      printingContext.clearDefinitionInProgress(name);
+    }
   }
 
   private ensureSchemaVariantRef(
@@ -2400,9 +2409,14 @@ export abstract class BaseRefRuntype extends BaseRuntype {
       }
       if (!printingContext.hasDefinition(name) && !printingContext.isDefinitionInProgress(name)) {
         printingContext.markDefinitionInProgress(name);
-        const schemaTarget = printingContext.getNamedTypeSchemaOverride(name) ?? to;
-        const body = schemaTarget.schema(ctx);
-        printingContext.storeDefinition(name, body);
+        try {
+          const schemaTarget = printingContext.getNamedTypeSchemaOverride(name) ?? to;
+          const body = schemaTarget.schema(ctx);
+          printingContext.storeDefinition(name, body);
+        } finally {
+          // a body that cannot be printed throws: the name must not stay marked
+          printingContext.clearDefinitionInProgress(name);
+        }
       }
       return annotateSchema(this.metadata, { $ref: printingContext.getRef(name) });
     }
